@@ -284,6 +284,70 @@ def scenario(params, ch):
         w.close()
 
 
+class TwoClientMonitor(DeliveryMonitor):
+    """per-connection attribution: what client k sent may only surface at the server under client k's object, what the
+    server sent to client k only at client k"""
+
+    def __init__(self):
+        DeliveryMonitor.__init__(self, flag_delivery=False)
+        self.up = {0: {}, 1: {}}     # client k -> {payload: count sent towards the server}
+        self.down = {0: {}, 1: {}}   # server -> client k
+        self.got_up = {0: {}, 1: {}}
+        self.got_down = {0: {}, 1: {}}
+
+    def on_app_message(self, w, end, seq, data):
+        if end[0] == "s":
+            obj = w._serial_objs[end[1]]
+            k = next((ce.index for ce in w.clients if ce.addr == obj.addr), None)
+            sent, got, who = self.up.get(k, {}), self.got_up.setdefault(k, {}), "server (as client %s)" % k
+        else:
+            k = end[1]
+            sent, got, who = self.down[k], self.got_down[k], "client %d" % k
+        got[data] = got.get(data, 0) + 1
+        if data not in sent:
+            other = 1 - k if k in (0, 1) else None
+            crossed = other is not None and (data in self.up[other] or data in self.down[other])
+            self.flag("fabricated", "a message surfaced on a connection whose peer never sent it (%s)" % ("it belongs to ANOTHER client's connection" if crossed else "nobody sent it"),
+                      "%s was handed %d bytes %r..." % (who, len(data), data[:24]))
+        elif got[data] > sent[data]:
+            self.flag("at-most-once", "payload delivered more often than sent [two clients]", "%s: %r... x%d" % (who, data[:20], got[data]))
+
+
+def two_client_scenario(params, ch):
+    sizes, retry, order = params
+    mon = TwoClientMonitor()
+    w = World(n_clients=2, order=order, chooser=ch, monitors=[mon])
+    try:
+        w.run_until_connected()
+        w.run(2)
+        w.fates = ["drop", "dup", "delay2", "delay8"]
+        from mc.pair import RETRY
+        for k in (0, 1):
+            for i, n in enumerate(sizes):
+                up = payload(10 * (k + 1) + i, n, salt=k)
+                down = payload(50 + 10 * (k + 1) + i, n + 7, salt=k)
+                mon.up[k][up] = mon.up[k].get(up, 0) + 1
+                mon.down[k][down] = mon.down[k].get(down, 0) + 1
+                w.clients[k].client.send(up, retry=RETRY[retry].value)
+                w.ctxt.connections[w.clients[k].addr].send(down, retry=RETRY[retry])
+        w.run(10)
+        w.fates = []
+        w.run(150)
+        ch.steps = w.tickno
+        missing = 0
+        for k in (0, 1):
+            missing += sum(1 for d in mon.up[k] if mon.got_up[k].get(d, 0) < 1) + sum(1 for d in mon.down[k] if mon.got_down[k].get(d, 0) < 1)
+        if w.fault_free and missing:
+            ch.flag("lossless-delivery", "without any fault a message was not delivered [two clients]", "%d missing" % missing)
+        ch.outcome = (missing,)
+        if w.exceptions:
+            ch.flag("exception", "exception in %s: %s" % (w.exceptions[0][0], w.exceptions[0][1].split("(")[0]), repr(w.exceptions[:2]))
+    finally:
+        for v in mon.violations:
+            ch.flag(*v)
+        w.close()
+
+
 def fault_params(tier):
     out = []
     sets = [
@@ -348,16 +412,23 @@ def run(tier, seed):
         key = (v["oracle"], v["sig"])
         if key not in acc:
             acc[key] = [sig_counts.get(key, 1), {"part": "faults", "params": v["params"], "choices": v["choices"], "labels": v["labels"]}, v["message"] + " | params=%r deviations=%r" % (v["params"], v["labels"])]
+    tc_params = [(sizes, retry, order) for sizes in ((1700, 40), (2600,), (1700, 1800)) for retry in ("none", "retry") for order in (("cs",) if tier == "quick" else ("cs", "sc"))]
+    st_tc = explore.explore_all("checks.c06", "two_client_scenario", tc_params, 1 if tier == "quick" else 2, time_budget=(120 if tier == "quick" else 900))
+    for v in st_tc.violations:
+        key = (v["oracle"], v["sig"])
+        if key not in acc:
+            acc[key] = [getattr(st_tc, "sig_counts", {}).get(key, 1), {"part": "two-clients", "params": v["params"], "choices": v["choices"], "labels": v["labels"]}, v["message"] + " | params=%r deviations=%r" % (v["params"], v["labels"])]
     for (oracle, sig), (cnt, wit, msg) in sorted(acc.items()):
         rep.add_violation(core.Violation(oracle, sig, wit, "%s [%d cases]" % (msg[:400], cnt)))
     rep.coverage = {
+        "two_client_executions": st_tc.executions,
         "states": st.points + s_ord + n_frag, "transitions": st.steps + n_ord + n_len, "traces_validated_against_impl": st.executions + n_ord + n_len,
         "length_cases": n_len, "length_cases_fragmented": n_frag, "mtus": mtus, "limit_cases": n_lim,
         "arrival_orders": n_ord, "fault_executions": st.executions, "fault_by_deviations": st.by_cost, "fault_configurations": len(plist), "fault_capped": st.capped,
         "evaluations": n_len + n_ord + st.executions + n_lim, "distinct_nontrivial": n_frag + s_ord + len(st.outcomes),
         "rule": "lengths: every length 0..3P+20 x %d MTUs x 3 contents (position dependent, zeros, fragment-header look-alike) + limit/limit+1; "
                 "orders: all permutations (and single duplications) of the <=6 datagrams of 10 message sets at a fresh receiver; "
-                "faults: <=2 deviations x %d configurations (two fragmented messages in flight, retry modes, blackouts up to 200 ticks) on the real stack" % (len(mtus), len(plist)),
+                "faults: <=2 deviations x %d configurations (two fragmented messages in flight, retry modes, blackouts up to 200 ticks) on the real stack; two clients sending and receiving fragmented messages concurrently with per-connection attribution" % (len(mtus), len(plist)),
         "exhaustive": not st.capped,
         "samples": [{"lengths": {"mtu": 1095, "length": 1029, "content": "zero"}}, {"orders": {"case": "frag2+small+frag2", "order": [4, 2, 0, 3, 1]}}] + st.samples[:2],
     }
@@ -380,6 +451,9 @@ def replay(witness):
             if label == witness["case"]:
                 total, s, viols = order_work((label, msgs))
                 return [core.Violation(k[0], k[1], witness, v[2]) for k, v in viols.items()]
+    if part == "two-clients":
+        ch = explore.replay_choices(two_client_scenario, _tup(witness["params"]), witness["choices"])
+        return [core.Violation(o, s, witness, m) for o, s, m in ch.found]
     if part == "faults":
         ch = explore.replay_choices(scenario, _tup(witness["params"]), witness["choices"])
         return [core.Violation(o, s, witness, m) for o, s, m in ch.found]
